@@ -12,7 +12,8 @@
 // The same source builds four targets: C03_KIND unset = mixed generator, 1 = attacker CA with copied signature (F5),
 // 2 = single soft defect (F4), 3 = revocation, 4 = history of validations over one CRL cache (prop_history),
 // 5 = validity-date encodings x boundary years x position relative to a (movable) virtual now,
-// 6 = certificates that reuse their issuer's subject DN (non-CA / CA issuers x keyUsage x basicConstraints, key roll-over).
+// 6 = certificates that reuse their issuer's subject DN (non-CA / CA issuers x keyUsage x basicConstraints, key roll-over),
+// 7 = trust store with one defective (usually unparseable) entry, loaded as one CA bundle the way matrixSslLoadKeys loads it.
 #include "vf.h"
 #include "mint.h"
 #include "model.h"
@@ -157,6 +158,8 @@ struct Mx {
     int32 rc = 0;
     std::vector<int32> status; std::vector<uint32> flags; std::vector<int> order;   // per cert after validation, in list order; order = chain index
     int foundNode = -1;
+    bool foundUnparsed = false; // the trust-store entry reported as issuer has parseStatus != PS_X509_PARSE_SUCCESS
+    int bundleEntries = 0, bundleUnparsed = 0;
     bool ownsStore = true;      // false: anchors and the CRL cache belong to a longer-lived Mx (history mode)
     ~Mx()
     {
@@ -212,9 +215,36 @@ static bool parse_chain(const Case &cs, Mx &mx)
     }
     return true;
 }
-// 2. trust anchors: certificates that do not parse cannot be loaded by the application
+// 2. trust anchors.  Either one psX509ParseCert per certificate (an application that holds its CAs one by one: a certificate that does
+//    not parse cannot be loaded), or - cs.anchorBundle - the whole CA file in one call with the flags of matrixSslAddTrustAnchors
+//    (matrixsslKeys.c: CERT_STORE_DN_BUFFER | CERT_ALLOW_BUNDLE_PARTIAL_PARSE); the list the library hands back IS keys->CAcerts,
+//    entries that failed to parse included ("a dummy psX509Cert_t will be added to the CAcerts list", matrixsslConfig.h).
 static void parse_anchors(const Case &cs, Mx &mx)
 {
+    if (cs.anchorBundle)
+    {
+        Bytes file;
+        for (int a : cs.anchors) file.insert(file.end(), cs.n[(size_t) a].der.begin(), cs.n[(size_t) a].der.end());
+        psX509Cert_t *list = NULL;
+        int32 rc = psX509ParseCert(NULL, file.data(), (uint32) file.size(), &list, CERT_STORE_DN_BUFFER | CERT_ALLOW_BUNDLE_PARTIAL_PARSE);
+        size_t i = 0;
+        for (psX509Cert_t *p = list; p != NULL; p = p->next, i++)
+        {
+            mx.anchors.push_back(p);
+            mx.anchorNode.push_back(i < cs.anchors.size() ? cs.anchors[i] : -1);       // entries come back in file order
+            mx.bundleEntries++;
+            if (p->parseStatus != PS_X509_PARSE_SUCCESS) mx.bundleUnparsed++;
+        }
+        if (rc <= 0)
+        {
+            // matrixSslAddTrustAnchors: "Failed to load any CA certs" -> the key load fails, the application has no trust store
+            mx.anchorsFailed += mx.bundleEntries;
+            for (auto *c : mx.anchors) c->next = NULL;
+            for (auto *c : mx.anchors) free_cert(c);
+            mx.anchors.clear(); mx.anchorNode.clear();
+        }
+        return;
+    }
     for (int a : cs.anchors)
     {
         const Bytes &der = cs.n[(size_t) a].der;
@@ -260,7 +290,8 @@ static void validate(const Case &cs, Mx &mx)
         mx.order.push_back(idx);
         if (mx.status.size() > mx.chain.size()) break;     // reordering must not create a cycle
     }
-    for (size_t i = 0; i < mx.anchors.size(); i++) if (mx.anchors[i] == found) mx.foundNode = mx.anchorNode[i];
+    for (size_t i = 0; i < mx.anchors.size(); i++)
+        if (mx.anchors[i] == found) { mx.foundNode = mx.anchorNode[i]; mx.foundUnparsed = found->parseStatus != PS_X509_PARSE_SUCCESS; }
 }
 
 static void run_matrixssl(Case &cs, Mx &mx)
@@ -358,6 +389,13 @@ static void judge(Case &cs, Mx &mx, vf::Ctx &c, const std::string &where)
     for (auto &r : cs.crls) c.count(!r.mxParsed ? "crl:not-parsed" : r.mxAuthenticated ? "crl:authenticated" : "crl:not-authenticated");
     if (cs.reorderFirst) c.count("opt:reorder-first");
     if (cs.revalidateDates) c.count("opt:revalidate-dates");
+    if (cs.anchorBundle)
+    {
+        c.count("opt:ca-bundle-load");
+        if (mx.bundleUnparsed) c.count("bundle:has-unparsed-entry");
+        if (mx.bundleEntries && mx.bundleEntries != (int) cs.anchors.size()) c.count("bundle:ENTRY-COUNT-DIFFERS");
+        if (success && mx.foundUnparsed) c.count("bundle:success-through-unparsed-entry");
+    }
     c.count(!mx.chainParsed ? "mx:chain-parse-reject" : !mx.called ? "mx:no-anchor" : success ? "mx:success" : std::string("mx:rc=") + rc_name(mx.rc));
     if (mx.anchorsFailed) c.count("mx:anchor-parse-failed");
     c.count(must ? "ref:must-accept" : may ? "ref:may-accept(dont-care)" : "ref:must-reject");
@@ -391,7 +429,8 @@ static void judge(Case &cs, Mx &mx, vf::Ctx &c, const std::string &where)
     // (2) soundness
     if (success && !may)
     {
-        std::string sig = first_violation(cs, mx.foundNode);
+        // one root cause whatever made the entry unparseable: validateCertsInner never looks at parseStatus of an issuerCerts entry
+        std::string sig = mx.foundUnparsed ? "accepts-unparsed-trust-anchor" : first_violation(cs, mx.foundNode);
         VF_FAIL(sig, "MatrixSSL accepted a chain for which no valid path to a trust anchor exists | %s => %s", d.c_str(), verdict.c_str());
     }
     // (3) completeness
@@ -436,6 +475,7 @@ static void prop_history(vf::Tape &t, vf::Ctx &c)
     psX509Cert_t *more = known.chain.empty() ? NULL : known.chain[0];
     for (auto &r : cs.crls) load_crl(r, store.anchors[0], more);
     c.count(std::string("hist:initial-crl-") + (!cs.crls[0].mxParsed ? "not-parsed" : cs.crls[0].mxAuthenticated ? "authenticated" : "not-authenticated"));
+    if (cs.crls.size() > 1) c.count("hist:initial-other-issuer-crls", cs.crls.size() - 1);
 
     std::string seq;
     for (size_t k = 0; k < cs.steps.size(); k++)
@@ -453,11 +493,21 @@ static void prop_history(vf::Tape &t, vf::Ctx &c)
             cs.crls[0] = a;
             c.count("hist:crl-replaced");
         }
+        if (st.otherLoad > 0 && !cs.otherCrls.empty())
+        {
+            // CRL of ANOTHER issuer fetched (psCRL_Update): replaces that issuer's cached CRL only; crls[0] stays the leaf issuer's CRL
+            Crl o = cs.otherCrls[(size_t) (st.otherLoad - 1) % cs.otherCrls.size()];
+            load_crl(o, store.anchors[0], more);
+            bool had = false;
+            for (size_t q = 1; q < cs.crls.size(); q++) if (name_eq(cs.crls[q].issuer, o.issuer)) { cs.crls[q] = o; had = true; }
+            if (!had) cs.crls.push_back(o);
+            c.count("hist:other-issuer-crl-loaded");
+        }
         cs.chain = st.chain;
         cs.shape = st.what;
         cs.revalidateDates = st.revalidateDates;
         cs.reorderFirst = st.reorderFirst;
-        seq += (k ? ">" : "") + st.what + (st.crlAction == 1 ? "(reload)" : st.crlAction == 2 ? "(replace)" : "");
+        seq += (k ? ">" : "") + st.what + (st.crlAction == 1 ? "(reload)" : st.crlAction == 2 ? "(replace)" : "") + (st.otherLoad ? "(+other-issuer-crl)" : "");
         Mx mx; mx.ownsStore = false;
         mx.anchors = store.anchors; mx.anchorNode = store.anchorNode;
         if (parse_chain(cs, mx)) validate(cs, mx);
@@ -474,6 +524,8 @@ VF_TARGET("c03_crl_history", prop_history, 768, 60)
 VF_TARGET("c03_dates", prop, 768, 60)
 #elif C03_KIND == 6
 VF_TARGET("c03_same_name", prop, 768, 60)
+#elif C03_KIND == 7
+VF_TARGET("c03_anchor_load", prop, 768, 60)
 #elif C03_KIND == 1
 VF_TARGET("c03_copied_sig", prop, 768, 60)
 #elif C03_KIND == 2
